@@ -191,6 +191,26 @@ class Device:
     def cmd_fa(self, data):
         return self.cmd_ff(data)
 
+    # -- onboarding (bootloader): SEED i b ... ; SEND_PIN (length-prefixed) ; WIPE
+    def cmd_44(self, data):
+        if len(data) != 2:
+            return self.err(0x6A87)
+        self.received.setdefault("seed", {})[data[0]] = data[1]
+        return D(CLA, 0x44)
+
+    def cmd_07(self, data):      # WIPE: onboard with the seed and PIN received
+        self.received["onboard_pin"] = self._pin_sent(True)
+        self.onboarded = True
+        self.pin = self.received["onboard_pin"]
+        return D(CLA, 2)
+
+    def cmd_a0(self, data):      # SGX_ONBOARD: 0 | seed(32) | pin
+        self.received["seed"] = {i: b for i, b in enumerate(data[1:33])}
+        self.received["onboard_pin"] = bytes(data[33:])
+        self.onboarded = True
+        self.pin = bytes(data[33:])
+        return D(CLA, 0xA0, 1)
+
     # -- SGX variants
     def cmd_a4(self, data):
         return D(CLA, 0xA4, data if not self.echo_bad else bytes(data[:-1]) + b"\x00")
